@@ -118,17 +118,17 @@ def make_cases(cells, factory):
         coords, conns = gen.mesh_arrays(mesh)
         nv = coords.shape[0]
         amp = draw(gen.logfloat(-4, 0)) * 0.15
-        ucoef = draw(st.lists(st.floats(-1, 1), min_size=12, max_size=12))
+        ucoef = draw(st.lists(gen.floats(-1, 1), min_size=12, max_size=12))
         nsteps = draw(st.integers(0, 2)) if cfg.state != 'none' else 0
         nbc = draw(st.integers(1, 3))
-        bcs = [{'frac': draw(st.floats(0.1, 0.6)), 'comp': draw(st.integers(0, 1)), 'seed': draw(st.integers(0, 10 ** 6))} for _ in range(nbc)]
+        bcs = [{'frac': draw(gen.floats(0.1, 0.6)), 'comp': draw(st.integers(0, 1)), 'seed': draw(st.integers(0, 10 ** 6))} for _ in range(nbc)]
         nblocks = draw(st.integers(2, 4))
         bseed = draw(st.integers(0, 10 ** 6))
-        dynp = {'beta': draw(st.floats(0.25, 0.5)), 'dt': draw(gen.logfloat(-3, 0)), 'rho': draw(gen.logfloat(-2, 2)),
-                'pred': draw(st.floats(-1, 1))}
+        dynp = {'beta': draw(gen.floats(0.25, 0.5)), 'dt': draw(gen.logfloat(-3, 0)), 'rho': draw(gen.logfloat(-2, 2)),
+                'pred': draw(gen.floats(-1, 1))}
         return {'factory': factory, 'model': name, 'mode': mode, 'proj': proj, 'order': order, 'props': pr, 'mesh': mesh, 'amp': amp,
                 'ucoef': ucoef, 'nsteps': nsteps, 'bcs': bcs, 'nblocks': nblocks, 'bseed': bseed, 'dyn': dynp,
-                'dtrel': draw(gen.logfloat(-2, 2)), 'rshift': draw(st.floats(0.2, 2.0)), 'hetero': draw(st.booleans())}
+                'dtrel': draw(gen.logfloat(-2, 2)), 'rshift': draw(gen.floats(0.2, 2.0)), 'hetero': draw(st.booleans())}
     return cases
 
 
